@@ -244,3 +244,34 @@ pub fn cb_enter() -> bool {
         Some((k, CbFault::Panic)) => std::panic::resume_unwind(Box::new(InjectedPanic(k))),
     }
 }
+
+// ---------------------------------------------------------------------------------------------
+// canaries in the worker's real environment
+//
+// The seam is only as good as its coverage: code that reads the real process environment
+// directly would escape the simulated store. Every name the generators know is therefore also
+// present in the real environment of the (single-threaded) worker with a value that differs
+// from anything the simulation holds, and the "scramble undeclared variables" step flips the
+// real variables together with the simulated ones. A read that bypasses the seam then shows up
+// as an outcome that depends on an undeclared variable or disagrees with the simulated state.
+
+pub fn real_env_init(names: &[&str]) {
+    let present: Vec<std::ffi::OsString> = std::env::vars_os().map(|(k, _)| k).collect();
+    for k in present {
+        std::env::remove_var(k);
+    }
+    for n in names {
+        std::env::set_var(n, "7");
+    }
+}
+
+/// flip the real variables: set ones are removed, unset ones appear
+pub fn real_env_flip(names: &[&str]) {
+    for n in names {
+        if std::env::var_os(n).is_some() {
+            std::env::remove_var(n);
+        } else {
+            std::env::set_var(n, "13");
+        }
+    }
+}
